@@ -436,7 +436,7 @@ func longestRun(b []byte) int {
 func init() {
 	register(&Property{
 		ID: "C05", Level: "exploration",
-		Rule:     "a message cut into 1-5 BDAT chunks (sizes 0..9000, LAST on any, none or the final chunk, well-formed / bad LAST token / non-numeric, negative or 64-bit-overflowing size / too many arguments) in session states {valid envelope, no MAIL, every RCPT rejected} and with MaxMessageBytes below or around the total; payloads mix text, CRLF.CRLF, bait commands, binary, leading dots and LF-free runs around and above MaxLineLength; a NOOP marker after every chunk, then RSET, a MAIL marker and QUIT; lock-step or fully pipelined with drawn segmentation (BDAT line glued to its payload, next command glued to the payload's tail). Expected replies come from a small reference chunk framer. Non-trivial: zero-size chunk, payload with end marker/bait/over-limit run, malformed or refused BDAT; distinct by (state, chunk forms/sizes/payload classes, limit, mode, discipline).",
+		Rule:     "a message cut into 1-5 BDAT chunks (sizes 0..9000, LAST on any, none or the final chunk, well-formed / bad LAST token / non-numeric, negative or 64-bit-overflowing size / too many arguments) in session states {valid envelope, no MAIL, every RCPT rejected} and with MaxMessageBytes below or around the total; payloads mix text, CRLF.CRLF, bait commands, binary, leading dots and LF-free runs around and above MaxLineLength; a NOOP marker after every chunk, then RSET, a MAIL marker and QUIT; lock-step or fully pipelined with drawn segmentation (BDAT line glued to its payload, next command glued to the payload's tail). Expected replies come from a small reference chunk framer. Non-trivial: zero-size chunk, payload with end marker/bait/over-limit run, malformed or refused BDAT; distinct by (state, chunk forms/sizes/payload classes, limit, mode, discipline). Fault stratum: the client pauses past ReadTimeout inside a chunk (accepted or being discarded) whose tail reads MAIL/RCPT/NOOP.",
 		Gen:      genC05,
 		Check:    checkC05,
 		Classify: classifyC05,
